@@ -11,10 +11,11 @@
     model static_doc / dynamic_doc           vs  Docstring.value of the two loads;  model same_components vs runtime._same_components
 (O) model runtime_features(defform)          vs  real introspection of the generated code (inspect.*, isinstance, callable)
     model cpy_from_module                    vs  importlib.util.resolve_name;  cpy_chain_ok vs the package actually importing
-    model inspect_signature / bound_signature vs inspect.signature;  model cleandoc vs inspect.cleandoc
+    model inspect_signature                  vs inspect.signature (class methods: of __func__);  model cleandoc vs inspect.cleandoc
 direct: griffe.load(pkg, allow_inspection=False) vs griffe.load(pkg, force_inspection=True) on the same generated package: member names,
     kinds, shared labels, parameters, base class paths, docstrings, alias final targets at every nesting level, modulo the allowed
-    differences encoded in compare_trees(); anything else must satisfy a known-gap classifier (F1..F6) or is a VIOLATION.
+    differences encoded in compare_trees(); anything else must satisfy a known-gap classifier (F4, F6) or is a VIOLATION.
+    corpus/C17: the witnesses of the repaired defects F1 F2 F3 F5 F7, on which the two agents must now agree completely.
 """
 from __future__ import annotations
 
@@ -35,16 +36,15 @@ from harness.translate import c17_tables
 
 ID = "C17"
 LEVEL_TEXT = ("Theorems: for each of the 24 definition forms (finite, listed) the member the Inspector derives from what CPython reports has the "
-              "same Griffe kind as the Visitor's (no exception) and the same shared labels modulo gap F3, which is exact; the ladder's kind "
-              "always has a handler (every observation vector); relative_to_absolute equals importlib's name resolution for every module depth "
-              "and level, and clamps where CPython refuses; through re-export chains of every length the static aliases end where the "
-              "Inspector's alias points (modulo gap F4, same module up to underscores); imported plain values are attributes on the dynamic "
-              "side (stated exception); parameter names/order/kinds/annotations agree for every signature length (via C02), defaults and "
-              "required-ness for every non-variadic parameter (gap F1), the static side's required-ness is CPython's, classmethods differ "
-              "exactly by the bound first parameter (gap F2); docstrings of any number of lines agree unless the first line is blank (gap F5, "
-              "double cleandoc; refutation witness); _pick_member equals its intended filter except for None-valued members of submodules "
-              "(gap F7). The kind ladder, handler table, decorator tables and _kind_map are regenerated from the source on every run; the model is "
-              "tied to both agents on generated packages and live objects, and the two agents are compared directly on every package.")
+              "same Griffe kind and the same shared labels as the Visitor's; the ladder's kind always has a handler (every observation "
+              "vector); relative_to_absolute equals importlib's name resolution for every module depth and level, and clamps where CPython "
+              "refuses; through re-export chains of every length the static aliases end where the Inspector's alias points (modulo gap F4, "
+              "same module up to underscores); imported plain values are attributes on the dynamic side (stated exception); the two agents "
+              "build the same parameter list (names, order, kinds, annotations, defaults, required-ness) for every signature length (via "
+              "C02), and both agree with CPython's binder on required-ness; both hand the raw docstring to Docstring (cleaned once); "
+              "_pick_member drops special names, type/object, inherited names and real ancestors only. The kind ladder, handler table, "
+              "decorator tables and _kind_map are regenerated from the source on every run; the model is tied to both agents on generated "
+              "packages and live objects, and the two agents are compared directly on every package.")
 LEVEL_NOTE = ("Trusted: Coq kernel, extraction, translator harness/translate/c17_tables.py, the harness's independent computation of the primitive "
               "observations of a live object, CPython's introspection / importlib / inspect.cleandoc as authorities. inspect.getmembers and "
               "vars() are CPython's. Base classes are compared only by the direct static-vs-dynamic evaluation (no theorem: name resolution "
@@ -663,38 +663,11 @@ def classify(diff, gen, model_doc):
     """Known-gap classifiers (Python mirrors of the Coq predicates / the model's verdict). Returns a finding id or None."""
     p, what, a, b, hint = diff
     meta = gen.meta.get(p, {}) if gen is not None else {}
-    if what == "params":
-        variadic_only = (len(a) == len(b) and all(
-            x[:2] == y[:2] and (x == y or (x[1] in ("VP", "VK") and x[2] in ("()", "{}") and x[3] is False and y[2] is None and y[3] is True))
-            for x, y in zip(a, b)))
-        if variadic_only:
-            return "C17-F1"
-        if "classmethod" in hint.get("labels", []) and a and a[0][1] in ("PO", "PK"):
-            rest = a[1:]
-            if len(rest) == len(b) and all(
-                    x[:2] == y[:2] and (x == y or (x[1] in ("VP", "VK") and x[2] in ("()", "{}") and x[3] is False and y[2] is None and y[3] is True))
-                    for x, y in zip(rest, b)):
-                return "C17-F2"
-    if what == "shared-labels" and hint.get("in_class") and [l for l in a if l != "async"] == b and "async" in a:
-        return "C17-F3"
     if what == "alias-vs-object" and isinstance(a, dict) and a["t"] == "alias" and b["t"] in ("function", "class"):
         cur_mod = meta["chain"][0]["mod"] if meta.get("chain") else None
         origin = meta.get("origin")
         if cur_mod and origin and cur_mod != origin["defmod"] and same_components(cur_mod, origin["defmod"]):
             return "C17-F4"
-    if what == "docstring" and a is not None and b is not None:
-        lines = meta.get("doc")
-        if lines is not None:
-            # mirror of the Coq predicate with CPython's own cleandoc: first line blank, static = one pass, dynamic = two passes
-            raw = doc_text(lines)
-            once = inspect.cleandoc(raw.rstrip())
-            twice = inspect.cleandoc(inspect.cleandoc(raw).rstrip())
-            if len(lines) > 1 and lines[0][1] is None and a == once and b == twice and once != twice:
-                if model_doc is not None:
-                    v = model_doc(doc_abstract(lines))
-                    if not (v[3] == 1 and v[1] == abstract_text(a) and v[2] == abstract_text(b)):
-                        return None
-                return "C17-F5"
     if gen is not None and gen.twin_module:
         # F4, module variant: <pkg>.core binds the module object <pkg>._core; the Inspector does not alias it (same components) and
         # inspect_module() replaces the Module under construction: everything in <pkg>.core, and every alias into it, is affected
@@ -707,18 +680,6 @@ def classify(diff, gen, model_doc):
         if gen.twin_module_in_class and what == "only-dynamic" and p.rsplit(".", 1)[0] == gen.pkg \
                 and p.rsplit(".", 1)[1] in set(gen.exports[core]) | {"functools"}:
             return "C17-F4"
-    if what == "only-static" and gen is not None and isinstance(a, dict) and a["t"] in ("attribute", "alias"):
-        # F7: placeholder parent nodes hold None, so a member whose value is None is "its own ancestor" in every submodule
-        if a["t"] == "attribute":
-            value = meta.get("value")
-        else:
-            o = meta.get("origin") or {}
-            value = gen.meta.get(f"{o.get('defmod')}.{o.get('defname')}", {}).get("value")
-        module = p
-        while module not in gen.files_mods:
-            module = module.rsplit(".", 1)[0]
-        if value == "None" and module != gen.pkg:
-            return "C17-F7"
     if what == "only-static" and isinstance(a, dict) and a["t"] == "alias" and gen is not None:
         # `import pkg.sub` inside pkg/__init__.py: the package object is skipped by _pick_member (it is its own ancestor)
         if p == f"{gen.pkg}.{gen.pkg}" and a["target"] == gen.pkg:
@@ -865,10 +826,10 @@ def check_package(ctx, gen, root, st, dy, a, b):
                   1 if raw is None else 0, placeholders, 1 if name in vars(parent) else 0]
         picked = {}
 
-        def cb_pick(out, path=path, node=node, raw=raw, name=name, picked=picked):
+        def cb_pick(out, path=path, node=node, raw=raw, name=name, picked=picked, placeholders=placeholders):
             ctx.count("pick_ties")
             impl_pick = 1 if node.parent._pick_member(name, raw) else 0
-            ctx.observe("pick_member", f"picked={out[0]} intended={out[1]} gap={out[2]}")
+            ctx.observe("pick_member", f"picked={out[0]} none={int(raw is None)} placeholders={min(placeholders, 1)}")
             picked["v"] = out[0]
             if out[0] != impl_pick:
                 ctx.tie_failure("correspondence", "pick_member(model) vs ObjectNode._pick_member", {"model": out, "impl": impl_pick}, {"path": path})
@@ -939,7 +900,6 @@ def check_package(ctx, gen, root, st, dy, a, b):
         if "sig" in meta:
             fn_src = f"def f({meta['sig']}): ...\n"
             args = c02.abstract_arguments(ast.parse(fn_src).body[0].args)
-            bound = 1 if meta["bound"] else 0
 
             def cb_params(out, path=path, sa=sa, da=da, raw=raw, meta=meta, parent=parent, name=name):
                 ctx.count("param_ties")
@@ -952,14 +912,7 @@ def check_package(ctx, gen, root, st, dy, a, b):
                 fn = fn.__func__ if isinstance(fn, (staticmethod, classmethod)) else fn
                 if out[2] != oracle_signature(fn):
                     ctx.tie_failure("oracle", "inspect_signature(model) vs inspect.signature", {"model": out[2], "cpython": oracle_signature(fn)}, {"sig": meta["sig"]})
-                if meta["bound"]:
-                    try:
-                        orc = ["ok", oracle_signature(raw)]
-                    except ValueError:
-                        orc = ["err", "ValueError"]
-                    if out[3] != orc:
-                        ctx.tie_failure("oracle", "bound_signature(model) vs inspect.signature(bound method)", {"model": out[3], "cpython": orc}, {"sig": meta["sig"]})
-            ask(["params", bound, args], cb_params)
+            ask(["params", args], cb_params)
 
     outs = ctx.model([x for x, _ in q])
     for (query, cb), out in zip(q, outs):
@@ -1274,16 +1227,15 @@ def check_docstrings(ctx, n):
         if out[2] != abstract_text(dyn):
             ctx.tie_failure("correspondence", "dynamic_doc(model) vs Inspector._get_docstring", {"model": out[2], "impl": dyn}, {"raw": raw})
         if st != dyn:
-            fid = "C17-F5" if out[3] == 1 and out[1] != out[2] else None
-            ctx.property_failure({"docstring": raw}, {"static": st, "dynamic": dyn}, finding=fid)
+            ctx.property_failure({"docstring": raw}, {"static": st, "dynamic": dyn})
 
 
 # ------------------------------------------------------------------------------------------------------------------
 # witnesses of the known findings, replayed on the implementation every run
 
 WITNESS_FILES = {
-    "__init__.py": '"""w"""\nimport {pkg}.sub\ndef f1(*args, **kwargs): ...\nclass K:\n    @classmethod\n    def cm(cls, a): ...\n    async def am(self): ...\n',
-    "sub.py": 'NOTHING = None\ndef doc5():\n    """\n      first\n    second\n    """\n',
+    "__init__.py": '"""w"""\nimport {pkg}.sub\n',
+    "sub.py": "",
     "_a.py": "def tw(): ...\n",
     "a.py": "from {pkg}._a import tw\n",
 }
@@ -1297,15 +1249,9 @@ def replay_witnesses(ctx):
         (root / pkg / name).write_text(text.replace("{pkg}", pkg))
     try:
         st, dy = load_both(pkg, root)
-        req = lambda m, n: [p.required for p in m[n].parameters]
         seen = {
-            "C17-F1": req(st, "f1") == [False, False] and req(dy, "f1") == [True, True],
-            "C17-F2": [p.name for p in st["K.cm"].parameters] == ["cls", "a"] and [p.name for p in dy["K.cm"].parameters] == ["a"],
-            "C17-F3": "async" in st["K.am"].labels and "async" not in dy["K.am"].labels,
             "C17-F4": st["a"].members["tw"].is_alias and not dy["a"].members["tw"].is_alias,
-            "C17-F5": st["sub.doc5"].docstring.value == "  first\nsecond" and dy["sub.doc5"].docstring.value == "first\nsecond",
             "C17-F6": pkg in st.members and pkg not in dy.members,
-            "C17-F7": "NOTHING" in st["sub"].members and "NOTHING" not in dy["sub"].members,
         }
     except Exception as e:  # noqa: BLE001
         ctx.tie_failure("harness", "witness replay", f"{type(e).__name__}: {e}")
@@ -1316,9 +1262,36 @@ def replay_witnesses(ctx):
         ctx.witness(fid, seen.get(fid, False))
 
 
+def replay_corpus(ctx):
+    """corpus/C17/*.json: packages that once showed a (now repaired) defect; the two agents must agree on them completely."""
+    from harness.common.framework import VERIF
+    for f in sorted((VERIF / "corpus" / "C17").glob("*.json")):
+        case = json.loads(f.read_text())
+        root = ctx.scratch / "corpus" / f.stem
+        for rel, text in case["files"].items():
+            p = root / rel
+            p.parent.mkdir(parents=True, exist_ok=True)
+            p.write_text(text)
+        try:
+            st, dy = load_both(case["pkg"], root)
+            a, b = summarize_root(st), summarize_root(dy)
+            diffs = []
+            compare_trees(a, b, case["pkg"], a, diffs)
+            ctx.count("corpus_cases")
+            ctx.case({"corpus": f.name}, True)
+            for d in diffs:
+                ctx.property_failure({"files": case["files"], "pkg": case["pkg"], "member": d[0], "corpus": f.name},
+                                     {"what": d[1], "static": d[2], "dynamic": d[3]})
+        except Exception as e:  # noqa: BLE001
+            ctx.property_failure({"files": case["files"], "pkg": case["pkg"], "corpus": f.name}, {"load raised": f"{type(e).__name__}: {e}"})
+        finally:
+            purge_modules(case["pkg"])
+
+
 def explore(ctx):
     sys.dont_write_bytecode = True
     replay_witnesses(ctx)
+    replay_corpus(ctx)
     if ctx.driver is None:
         raise_unavailable(ctx)          # the framework then calls search(): implementation-vs-implementation only
     check_zoo(ctx)
